@@ -238,10 +238,6 @@ Proof.
   - eapply cnt_keep; eauto; simpl; eauto. eapply stack_ok_rest; eauto.
   - eapply cnt_keep; eauto; simpl; eauto. eapply stack_ok_rest; eauto.
   - eapply cnt_keep; eauto; simpl; eauto. eapply stack_ok_rest; eauto.
-  - (* the marker is dropped: same stack, same accumulator *)
-    eapply cnt_keep; eauto; simpl; eauto.
-    + cbn [stk set_ext]. rewrite ST; auto.
-    + cbn [stk acc set_ext]. intros f0 rest0 E0 MD. eapply ci_acc; eauto.
 Qed.
 End Counter.
 
